@@ -1,0 +1,25 @@
+//go:build verif
+
+// Contracts for package twins, checked by /verif/govc (comment-only file).
+package twins
+
+// The generator is an odometer over leadersPartitions with one digit per view.
+//@ pred gwf(g *Generator) = len(g.leadersPartitions) >= 1 && (len(g.indices) > 0 ==> disjoint(g.indices, g.offsets)) && len(g.offsets) == g.settings.Views && (len(g.indices) == 0 || len(g.indices) == g.settings.Views) && (forall i int :: {g.indices[i]} 0 <= i && i < len(g.indices) ==> 0 <= g.indices[i] && g.indices[i] < len(g.leadersPartitions)) && (forall i int :: {g.offsets[i]} 0 <= i && i < len(g.offsets) ==> 0 <= g.offsets[i] && g.offsets[i] < len(g.leadersPartitions))
+
+// io.EOF is initialised by package io and never reassigned.
+//@ axiom eof_nonnil io.EOF != nil
+
+//@ func (*Generator).NextScenario property C18
+//@   requires gwf(g) && g.remaining > -9223372036854775808
+//@   ensures [wf] gwf(g)
+//@   ensures [eof] old(len(g.indices)) == 0 ==> err != nil && g.remaining == old(g.remaining)
+//@   ensures [count] old(len(g.indices)) > 0 ==> err == nil && g.remaining == old(g.remaining) - 1 && len(s) == g.settings.Views
+//@   ensures [selection] err == nil ==> forall i int :: {s[i]} 0 <= i && i < len(s) ==> s[i] == g.leadersPartitions[old(g.indices[i]) + g.offsets[i] < len(g.leadersPartitions) ? old(g.indices[i]) + g.offsets[i] : old(g.indices[i]) + g.offsets[i] - len(g.leadersPartitions)]
+//@   ensures [last-exhausts] old(len(g.indices)) > 0 && (forall i int :: {old(g.indices[i])} 0 <= i && i < old(len(g.indices)) ==> old(g.indices[i]) == len(g.leadersPartitions) - 1) ==> len(g.indices) == 0
+//@   loop 0 invariant [sel] forall k int :: {p[k]} 0 <= k && k <= rangeindex ==> p[k] == g.leadersPartitions[g.indices[k] + g.offsets[k] < len(g.leadersPartitions) ? g.indices[k] + g.offsets[k] : g.indices[k] + g.offsets[k] - len(g.leadersPartitions)]
+//@   loop 0 invariant [p] len(p) == g.settings.Views && fresh(p)
+//@   loop 1 invariant [wf] -1 <= i && i < old(len(g.indices)) && old(len(g.indices)) == g.settings.Views && (i >= 0 ==> len(g.indices) == old(len(g.indices))) && (i < 0 && old(len(g.indices)) > 0 ==> len(g.indices) == 0) && (len(g.indices) == 0 || len(g.indices) == old(len(g.indices))) && samearr(g.indices, old(g.indices))
+//@   loop 1 invariant [digits] forall k int :: {g.indices[k]} 0 <= k && k < len(g.indices) ==> 0 <= g.indices[k] && g.indices[k] < len(g.leadersPartitions)
+//@   loop 1 invariant [carried] forall k int :: {g.indices[k]} {old(g.indices[k])} i < k && k < old(len(g.indices)) ==> g.indices[k] == 0 && old(g.indices[k]) == len(g.leadersPartitions) - 1
+//@   loop 1 invariant [untouched] forall k int :: {g.indices[k]} 0 <= k && k <= i ==> g.indices[k] == old(g.indices[k])
+//@   modifies g.indices, g.indices[*], g.remaining, alloc
